@@ -10,21 +10,39 @@ THEOREMS = [
     "GoaktVerif.C45.noStall_step",
     "GoaktVerif.C45.SinkInv.step_down",
     "GoaktVerif.C45.sink_hooks_le_one",
-    "GoaktVerif.C45.witness_run",
-    "GoaktVerif.C45.C45_refuted",
+    "GoaktVerif.C45.FlowInv.specM",
+    "GoaktVerif.C45.FusedInv.step_down",
+    "GoaktVerif.C45.FusedInv.specM",
+    "GoaktVerif.C45.SrcInv.step_req",
+    "GoaktVerif.C45.SpecM.extend",
+    "GoaktVerif.C45.Approx.step",
+    "GoaktVerif.C45.deliver_effect",
+    "GoaktVerif.C45.GInv.of_frame",
+    "GoaktVerif.C45.GInv.step_up",
+    "GoaktVerif.C45.GInv.step_down",
+    "GoaktVerif.C45.GInv.run",
+    "GoaktVerif.C45.GInv.sink_ok",
+    "GoaktVerif.C45.GInv.raw",
+    "GoaktVerif.C45.wireAll_inv",
+    "GoaktVerif.C45.idealAt_eq_semF",
+    "GoaktVerif.C45.semF_eq_sem",
+    "GoaktVerif.C45.run_inv",
+    "GoaktVerif.C45.net_correct",
+    "GoaktVerif.C45.witness_regression",
+    "GoaktVerif.C45.C45_partial",
 ]
 INPKG = ["stream/zz_verif_c45.go"]
 TIMEOUT = 900
 MANIFEST = {
-    "level_text": "Kernel-checked theorems on an actor-level model of the stream stages (flowActor, fusedFlowActor, batchFlowActor, parallelMapActor, pull source, sinkActor as state machines over FIFO links, every scheduler choice explicit): the per-element transform closures folded over any list equal the list functions of the spec (xfRun_eq_stageSem); flowActor is a FIFO transducer for EVERY sequence of requests/elements/terminals - what it has sent is always a prefix of the list semantics of what it consumed, streamComplete is sent only after everything was delivered, an error ends it with that error (FlowInv.step, FlowInv.prefix); no-stall invariant (noStall_step); the sink records exactly the elements handled and runs its completion hook exactly once even with duplicate streamComplete (SinkInv.step_down, sink_hooks_le_one). The full end-to-end statement C45_full (all pipelines, all schedules) is REFUTED by a kernel-checked schedule on which a Batch stage drops elements (C45_refuted, finding C45-F1).",
-    "level_note": "Partial: the end-to-end composition theorem over all schedules is stated (C45_full) but only its refutation and the per-actor theorems are proved so far; liveness (the stream eventually completes) is not proved (only the local no-stall invariant); Batch maxWait timer flushes are compared as concatenation only; unordered ParallelMap is compared as a multiset by the differential, not covered by a theorem; the model assumes every stage handles its stageWire first (finding C45-F2 is exactly the case where the real materializer does not guarantee it). Trusted: Lean kernel; the differential (per-actor message replay of the real actors between probe actors, end-to-end runs of the real stream against the list semantics).",
+    "level_text": "Kernel-checked composition theorem on an actor-level model of a materialized pipeline (pull source, flowActor, fusedFlowActor, batchFlowActor, parallelMapActor, sinkActor as state machines; FIFO links; every scheduler choice - which actor handles which pending message next - explicit): C45_partial: for EVERY pipeline of flowActor-backed stages (Map, TryMap, Filter, FlatMap, Flatten, Scan, Deduplicate, Buffer), every input and EVERY schedule of any length, at every moment the sink's record is a prefix of the list semantics `sem`, the completion hook runs at most once (exactly once when the sink has stopped, duplicate streamComplete included), normal completion means exactly `sem` with no failing stage, and a failure carries an error some stage raises on this input. net_correct: the same with stage fusion on, against the composed fused functions. Built from per-actor invariants preserved by every message (FlowInv.step, FusedInv.step_down, SrcInv.step_req, SinkInv.step_down), a network invariant preserved by every scheduler step (GInv.step_up/step_down/run, any demand pattern) and the closure-vs-list-function lemma xfRun_eq_stageSem; plus noStall_step (no-stall invariant) and sink_hooks_le_one.",
+    "level_note": "Partial: the statement for ALL pipelines (C45_full) is neither proved nor refuted on the current tree: Batch (after fix 688097a) and (Ordered)ParallelMap are modelled and tied by message replay and end-to-end runs, but are not yet inside the composition proof; with fusion on the theorem is against the composed fused function, its equality with `sem` is checked by the differential only; liveness (the stream eventually completes) is not proved, only the local no-stall invariant; Batch maxWait timer flushes are compared as concatenation; unordered ParallelMap is compared as a multiset; the model assumes every stage handles its stageWire first (guaranteed end-to-end since fix cf400b2: demand starts at the sink, which is wired last). Trusted: Lean kernel; the differential (per-actor message replay of the real actors between probe actors, end-to-end runs of the real stream, slow-consumer variant included, against the list semantics).",
     "technique": "Lean 4 proof (inductive invariants over every message order) on a hand-written actor model, tied to the Go code by deterministic per-actor message replay and an end-to-end differential against the list semantics",
 }
 TRUSTED = [
     "rctx.Shutdown() is synchronous: a stage actor handles no message after the one in which it shut down (checked by the per-actor replay: later messages are answered `dead`)",
     "actor mailboxes are FIFO per sender (the model lets the scheduler interleave the two senders of a stage arbitrarily)",
     "a Tell to a stopped actor enqueues nothing (actor.Tell returns ErrDead)",
-    "every stage handles its stageWire before any other message (not guaranteed by materialize: finding C45-F2)",
+    "every stage handles its stageWire before any other message (end to end this holds since fix cf400b2: stages pull only after the first demand, which originates at the sink, wired last)",
 ]
 RULE = ("pl: typed pipelines of depth 0..4 (quick) / 0..6 (thorough) over the 12-entry stage table, inputs of 0..200 ints with repeats, "
         "at most one failing stage per pipeline, fusion on/off; st: one real stage actor driven message by message with random demand patterns and small "
@@ -183,12 +201,6 @@ def gen_pipeline(rng, depth, fusion, vals):
         elif k == "dd":
             s = "dd"
         elif k == "bat":
-            # a Batch whose upstream pushes without demand (parallel stage, fused run) may see elements
-            # before any downstream demand: outside the deterministic region (finding C45-F1)
-            if stages and stages[-1].split(":")[0] in ("pm", "opm"):
-                continue
-            if fusion[0] == "1" and len(stages) >= 2 and all(x.split(":")[0] in FUSABLE for x in stages[-2:]):
-                continue
             s = f"bat:{rng.choice([1, 2, 3, 5, 8, 50])}"
         elif k == "buf":
             s = f"buf:{rng.choice([1, 2, 3, 8, 64, 300])}"
@@ -208,11 +220,9 @@ def gen_pipeline(rng, depth, fusion, vals):
         elif k == "sum":
             s = "sum"
         if k == "lbufX":
-            s = f"buf:{len(cur) + rng.choice([1, 5, 300])}"       # demand for every batch up front
+            s = f"buf:{rng.choice([1, 2, 3, 8, 300])}"
         nxt, e = stage_sem("lbuf:0" if (k == "lbufX") else s, i, cur)
         if len(nxt) > 1500:
-            continue
-        if k == "bat" and len(nxt) > 200:
             continue
         stages.append(s)
         cur = nxt
@@ -318,10 +328,6 @@ def gen_st(rng, tier):
     if rng.random() < 0.6 and not par and kind != "sink":
         evs += ["c"] if not done else []
         evs += [f"r{rng.randint(1, 20)}", "r50"]
-    if kind == "bat":
-        # keep generated Batch traces inside the region where every flush finds demand (outside it: finding C45-F1,
-        # witnessed by the corpus); a leading large request does that
-        evs = ["r1000"] + evs
     return f"st {spec} {init} {refill} | {' '.join(evs)}"
 
 
@@ -329,6 +335,11 @@ def gen_cases(rng, tier):
     n_pl, n_st = (140, 500) if tier == "quick" else (2500, 8000)
     cases = ["pl 1 c - -", "pl 0 c - 1,2,3", "pl 1 c map:1 1,2,3"]
     cases += [gen_pl(rng, tier) for _ in range(n_pl)]
+    for _ in range(3 if tier == "quick" else 40):
+        # slow consumer: the sink blocks until upstream is quiescent (bounded wait of 1.5 s per case)
+        f = gen_pl(rng, tier).split()
+        f[2] = "b"
+        cases.append(" ".join(f))
     cases += [gen_st(rng, tier) for _ in range(n_st)]
     return cases
 
@@ -338,10 +349,9 @@ def search_cases(rng, tier):
     cases = []
     for _ in range(200):
         c = gen_pl(rng, "thorough")
-        if "bat" not in c:
-            f = c.split()
-            f[2] = "b"
-            cases.append(" ".join(f))
+        f = c.split()
+        f[2] = "b"
+        cases.append(" ".join(f))
     # the thorough mix, cut to a size that keeps the search within a few minutes
     more = gen_cases(rng, "thorough")
     rng.shuffle(more)
@@ -395,8 +405,6 @@ def f2_signature(case, impl):
 
 def compare(case, impl, model):
     if case.startswith("pl"):
-        if f2_signature(case, impl):
-            return None   # judged by the oracle and classified as C45-F2, not a model/implementation difference
         _, _, stages, vals = split_case(case)
         _, errs, _ = sem(stages, vals)
         par = any(s.split(":")[0] in ("pm", "opm") for s in stages)
@@ -466,21 +474,7 @@ def oracle(case, impl, judge):
 
 
 def classify(case, impl, why):
-    # C45-F1: a Batch stage whose downstream demand is exhausted (slow consumer) skips the flush:
-    # oversized batches, and the window is dropped at completion
-    f = case.split()
-    if f[0] == "pl" and "bat:" in f[3] and (f[2] == "b") and why and ("missing" in why or "differ" in why or "did not complete" in why):
-        return "C45-F1"
-    if f[0] == "pl" and f[2] == "c" and f2_signature(case, impl):
-        return "C45-F2"
-    if f[0] == "st":
-        kind = f[1].lstrip("~").split(":")[0]
-        if f[1].startswith("~") and "PANIC" in impl and why and "panicked" in why:
-            return "C45-F2"
-        # a starved flush: the Batch stage had no downstream demand when its window filled or at completion
-        if kind == "bat" and why and ("missing" in why or "not a prefix" in why):
-            return "C45-F1"
-    return None
+    return None   # no open finding (C45-F1 fixed by 688097a, C45-F2 by cf400b2)
 
 
 def shrink(case):
